@@ -94,6 +94,22 @@ class Facts:
                 return k.methods[mname]
         return None
 
+    # calls the rules want to see as calls (never inlined)
+    # = the private functions of the tree the rules were confirmed on (frozen list); helpers introduced later are read through
+    KEEP = tuple(__import__('json').load(open(__import__('os').path.join(__import__('os').path.dirname(__file__), 'data', 'private_names.json'))))
+
+    def lookup_inl(self, c, mname, keep=None, force=()):
+        """like lookup(), with private helper calls inlined (hv/inline.py) so that rules read through helper extraction"""
+        from .inline import inline_function
+        fn = self.lookup(c, mname)
+        if fn is None:
+            return None
+        key = (c.rel, c.name, mname, tuple(keep if keep is not None else self.KEEP), tuple(force))
+        cache = self.__dict__.setdefault('_inl_cache', {})
+        if key not in cache:
+            cache[key] = inline_function(self, self.owner(c, mname), fn, keep=keep if keep is not None else self.KEEP, force=force)
+        return cache[key]
+
     def owner(self, c, mname):
         for k in self.mro(c):
             if mname in k.methods:
